@@ -89,10 +89,11 @@ func InitTimeoutParamsFromConfig(conf *viper.Viper) *TimeoutParams {
 // Errors
 
 var (
-	ErrInvalidProposalSignature = errors.New("Error invalid proposal signature")
-	ErrInvalidProposalPOLRound  = errors.New("Error invalid proposal POL round")
-	ErrAddingVote               = errors.New("Error adding vote")
-	ErrVoteHeightMismatch       = errors.New("Error vote height mismatch")
+	ErrInvalidProposalSignature   = errors.New("Error invalid proposal signature")
+	ErrInvalidProposalPOLRound    = errors.New("Error invalid proposal POL round")
+	ErrInvalidProposalPartsHeader = errors.New("Error invalid proposal block parts header")
+	ErrAddingVote                 = errors.New("Error adding vote")
+	ErrVoteHeightMismatch         = errors.New("Error vote height mismatch")
 )
 
 //-----------------------------------------------------------------------------
@@ -1367,6 +1368,11 @@ func (cs *ConsensusState) defaultSetProposal(proposal *types.Proposal) error {
 	if proposal.POLRound != -1 &&
 		(proposal.POLRound < 0 || proposal.Round <= proposal.POLRound) {
 		return ErrInvalidProposalPOLRound
+	}
+
+	// The part set is allocated from this header: a part holds at least one byte of the block.
+	if proposal.BlockPartsHeader.Total < 0 || proposal.BlockPartsHeader.Total > types.MaxBlockSize {
+		return ErrInvalidProposalPartsHeader
 	}
 
 	// Verify signature
